@@ -5,6 +5,7 @@ import small_corr, text_corr, factory_corr
 def explore(run, lean):
     quick = run.tier == "quick"
     small_corr.explore_singleton(run, 60 if quick else 1500)
+    small_corr.explore_singleton_kinds(run)
     run.extra["rule"] = ("2-4 threads making the first request of a SingletonDecorator: (A) lock-granularity schedules replayed on the Lean model, (B) bytecode-granularity random schedules of __call__ checked by the oracle (one instance)")
 
 
